@@ -173,6 +173,9 @@ def vc_list(it=()):
 def vc_set(it=()):
     if hasattr(it, '__vc_set__'):
         return it.__vc_set__()
+    if isinstance(it, (builtins.list, builtins.tuple)) and builtins.any(isinstance(x, SymKey) for x in it):
+        from . import heap
+        return heap.SymSet(heap.SymSet._dom_of(builtins.list(it)))
     return builtins.set(it)
 
 
